@@ -19,25 +19,26 @@ const Addr = "sim:5000"
 
 // Opts configures the system under test. Zero values mean "library default".
 type Opts struct {
-	Active                 bool
-	Equip                  bool
-	T3, T5, T6, T7, T8     time.Duration
-	Linktest               time.Duration
-	LinkThreshold          int
-	Suppress               *bool
-	SessionID              *uint16
-	ValidateSession        bool
-	AutoS9F9               bool
-	QueueSize              int
-	CloseTimeout           time.Duration
-	WriteTimeout           *time.Duration
-	BackoffInit            time.Duration
-	BackoffMult            float64
-	ConnectTimeout         time.Duration
-	Handlers               int // number of recording data handlers (default 2)
-	NoDataHandlers         bool // register no data handler (the harness registers its own)
-	NoStateHandler         bool
-	AsyncErrHandler        bool
+	Active             bool
+	Equip              bool
+	T3, T5, T6, T7, T8 time.Duration
+	Linktest           time.Duration
+	LinkThreshold      int
+	Suppress           *bool
+	SessionID          *uint16
+	ValidateSession    bool
+	AutoS9F9           bool
+	QueueSize          int
+	CloseTimeout       time.Duration
+	WriteTimeout       *time.Duration
+	BackoffInit        time.Duration
+	BackoffMult        float64
+	ConnectTimeout     time.Duration
+	Handlers           int  // number of recording data handlers (default 2)
+	NoDataHandlers     bool // register no data handler (the harness registers its own)
+	NoStateHandler     bool
+	AsyncErrHandler    bool
+	TraceTraffic       bool // per-frame wire tracing on (a logging option must not change behaviour)
 }
 
 // Delivery is one data-handler invocation.
@@ -158,6 +159,9 @@ func New(w *core.World, o Opts) *Rig {
 			m = 2
 		}
 		co(hsms.WithReconnectBackoff(o.BackoffInit, m))
+	}
+	if o.TraceTraffic {
+		co(hsms.WithTraceTraffic(true))
 	}
 	if o.AsyncErrHandler {
 		co(hsms.WithAsyncSendErrorHandler(func(m hsms.Message, err error) {
